@@ -99,6 +99,7 @@ def c15_rf19(run):
     rf_tables.rf94(run)
     run.min_instances('RF94', 150)
     rf_proto.rf102(run)
+    rf_tables.rf134(run)
 
 
 def c15_rf16h(run):
@@ -251,6 +252,7 @@ def c17_rf2(run):
     rf_alloc.rf109(run)
     rf_alloc.rf122(run)
     rf_alloc.rf130(run)
+    rf_alloc.rf137(run)
     run.min_instances('RF78b', 20)
 
 
@@ -279,6 +281,7 @@ def c12_rf13(run):
     run.min_instances('RF13e', 8)
     rf_bounds.rf13c(run)
     rf_bounds.rf105(run)
+    rf_bounds.rf135(run)
     run.min_instances('RF13c', 2)
 
 
@@ -397,6 +400,7 @@ def c13_rf16(run):
     rf_proto.rf79(run)
     rf_proto.rf108(run)
     rf_proto.rf123(run)
+    rf_proto.rf136(run)
 
 
 def c14_rf16f(run):
@@ -410,6 +414,7 @@ def c14_rf16f(run):
     rf_proto.rf79(run)
     rf_iface.rf89(run)
     rf_proto.rf128(run)
+    rf_iface.rf132(run)
 
 
 def c02_rf7a(run):
@@ -448,6 +453,7 @@ def c03_rf11(run):
     rf_iface.rf89(run)
     rf_x86.rf104(run)
     rf_x86.rf124(run)
+    rf_iface.rf132(run)
     rf_abi.rf111(run)
 
 
@@ -491,6 +497,7 @@ def c05_rf10(run):
     rf_dispatch.rf7f(run)
     run.min_instances('RF7f', 30)
     rf_abi.rf126(run)
+    rf_abi.rf133(run)
 
 
 def c06_rf10(run):
@@ -508,6 +515,7 @@ def c06_rf10(run):
     run.min_instances('RF7f', 30)
     rf_abi.rf111(run)
     rf_abi.rf127(run)
+    rf_abi.rf133(run)
 
 
 def c02_rf9(run):
